@@ -138,7 +138,7 @@ def shard_script(spec: Dict[str, Any], journal: Any) -> Dict[str, Any]:
     samples: List[Any] = []
     Device = engines.make_recording_device()
     # ('top' is left to C01/C07: what happens one word past the 2^64-bit space is their known finding, not a device matter)
-    geoms = ['compact', 'gaps', 'page-edge', 'cache-alias', 'window-cut', 'far', 'magic', 'many', 'w8']
+    geoms = ['compact', 'gaps', 'page-edge', 'cache-alias', 'window-cut', 'far', 'magic', 'many', 'w8', 'big-first']
     done = attempts = 0
     while done < spec['cases'] and attempts < spec['cases'] * 30:
         attempts += 1
